@@ -25,8 +25,10 @@ Item(k) ==
       [] k = "ffc"     -> <<"; comment with a form feed \f inside">>
       [] k = "vtstr"   -> <<".ascii 'a<vt>b' ; and <nel> <ls> in a comment">>
       \* lines whose last character is the one-digit literal 0
+      \* the very operand texts of the fault statements, used validly inside a block that defines the name locally
+      [] k = "localdef" -> <<"{", "nosuchsymbol := 5", "lda.w nosuchsymbol", "lda nosuchsymbol", ".dw 1, nosuchsymbol", "}">>
       [] k = "zeroend" -> <<"lda #0", ".db 1, 0", "zsym = 0">>
-PreKinds == {"blank", "comment", "eolc", "stmt", "label", "mlc", "mlc1", "block", "macro", "data", "scope", "tabs", "ffc", "vtstr", "zeroend"}
+PreKinds == {"blank", "comment", "eolc", "stmt", "label", "mlc", "mlc1", "block", "macro", "data", "scope", "tabs", "ffc", "vtstr", "zeroend", "localdef"}
 
 \* fault statements: text, whether the error is lexical, offset of the offending character in the text
 Fault(k) ==
@@ -35,12 +37,14 @@ Fault(k) ==
       [] k = "undef_data"    -> [text |-> ".dw 1, nosuchsymbol", lexical |-> FALSE, off |-> 0]
       [] k = "bad_suffix"    -> [text |-> "lda.q 0x10", lexical |-> TRUE, off |-> 4]
       [] k = "bad_index"     -> [text |-> "lda 0x10,z", lexical |-> TRUE, off |-> 9]
+      \* the index register is missing: the offending character is the line end after the comma
+      [] k = "missing_index" -> [text |-> "lda 0x10,", lexical |-> TRUE, off |-> 9]
       [] k = "unterminated"  -> [text |-> ".ascii 'abc", lexical |-> TRUE, off |-> 7]
       [] k = "unterminated_bs" -> [text |-> ".ascii 'abc\\", lexical |-> TRUE, off |-> 7]
       \* a size suffix that is missing altogether: the offending character is the one after the dot (here the line end)
       [] k = "empty_suffix"  -> [text |-> "lda.", lexical |-> TRUE, off |-> 4]
       [] k = "bad_width"     -> [text |-> "lda.l #0x123456", lexical |-> FALSE, off |-> 0]
-FaultKinds == {"undef_operand", "undef_nosfx", "undef_data", "bad_suffix", "bad_index", "unterminated", "unterminated_bs", "bad_width", "empty_suffix"}
+FaultKinds == {"undef_operand", "undef_nosfx", "undef_data", "bad_suffix", "bad_index", "unterminated", "unterminated_bs", "bad_width", "empty_suffix", "missing_index"}
 
 Spaces(n) == [j \in 1..n |-> " "]
 RECURSIVE Cat(_)
